@@ -56,12 +56,21 @@ claim("C20", MC,
       "Work counters (state reads counted by the stub, bytes allocated/copied accumulated by the engine as terms) asserted against a bound for the journal instructions, the memory-name loader and the Artela precompiles.",
       "VRJNAL long strings are the subject of a known finding (data-driven loop under a flat fee).",
       "DESIGN.md 3/C20")
+claim("C15", MC,
+      "TLOAD/TSTORE/MCOPY executed through the real interpreter loop (arbitrary stack, memory, gas, static flag) on the Cancun table and on three earlier tables: transient slot per executing address, write refused in static context, exact warm-access fee; MCOPY against a memmove oracle on the zero-extended pre-state with exact copy+expansion gas for case-split small operands, and must-fail / coverage obligations for operands up to 2^256; the three bytes are invalid instructions before Cancun.",
+      "MCOPY content and gas: dst, src, len <= 5 (thorough 12) with 0..3 words of memory, all byte contents symbolic; larger operands symbolic for the failure/coverage obligations only. 'Empty at transaction start' and 'restored on revert' are the host StateDB's journal (a transient write is one journal event, covered by C04).",
+      "DESIGN.md 3/C15")
+claim("C16", MC,
+      "The three list-valued tracer queries evaluated twice while the engine chooses Go's map iteration order freely (every order is a path): answers must be identical; two EVM instances share no tracer structure; every write of the code under test to memory created by package initialisation (shared constants, tables, precompile instances) is reported, across the journal, frame, precompile and step harnesses.",
+      "Maps of 3 entries quick / 4 thorough. A shared write is established symbolically (no native replay). Host StateDB and library determinism are outside.",
+      "DESIGN.md 3/C16")
+claim("C19", MC,
+      "Well-nested symbolic event streams (several Aspects on one join point, calls issued from inside an Aspect, child and grandchild frames, deep chains with several children) driven into the real callTracer and flatCallTracer: no panic, every frame and Aspect execution emitted once with its own gas/output/error, flat sub-trace counts equal emitted children, trace addresses unique and prefix-closed.",
+      "Quick: <=2 Aspects on the pre join point, 1 on post, <=1 call inside an Aspect, 1 child (+grandchild), chains to depth 4 with 3 children; thorough: 3/2/2/2, depth 8. JSON marshalling and ABI revert decoding are opaque.",
+      "DESIGN.md 3/C19")
 for pid, why in {
     "C01": "relational harnesses against go-ethereum v1.12.0 not built yet in this session (planned: same engine, twin harness in the upstream package)",
     "C02": "as C01 (gas relational checks not built yet)",
-    "C15": "Cancun harnesses (table gating, TLOAD/TSTORE, MCOPY) not built yet",
-    "C16": "map-order / isolation harnesses not built yet",
     "C17": "no goroutine scheduler or memory model is encodable in this engine; the planned reduction (write-set separation + atomic flag) is not built yet",
-    "C19": "call-tracer stream harnesses not built yet",
 }.items():
     NA[pid] = why
